@@ -48,7 +48,7 @@ def odd_money():
 
 
 @st.composite
-def ledgers(draw, max_txns=10, with_pad=True, with_extras=True, min_txns=1, many_extras=False):
+def ledgers(draw, max_txns=10, with_pad=True, with_extras=True, min_txns=1, many_extras=False, empty_narrations=False):
     accounts = list(BASE_ACCOUNTS)
     desc = {'title': 'generated', 'commodities': [], 'accounts': [], 'directives': []}
     for cur in CASH + STOCKS:
@@ -146,7 +146,8 @@ def ledgers(draw, max_txns=10, with_pad=True, with_extras=True, min_txns=1, many
         directives.append({
             'kind': 'txn', 'date': date, 'flag': draw(st.sampled_from(['*', '*', '!'])),
             'payee': draw(st.sampled_from([None, None, 'Shop', 'Employer Inc'])),
-            'narration': f'T{i} ' + draw(st.sampled_from(['', 'groceries', 'salary', 'misc stuff'])),
+            'narration': '' if empty_narrations and draw(st.integers(0, 5)) == 0 else
+                         f'T{i} ' + draw(st.sampled_from(['', 'groceries', 'salary', 'misc stuff'])),
             'tags': sorted(draw(st.sets(st.sampled_from(['trip', 'food', 'work']), max_size=2))),
             'links': sorted(draw(st.sets(st.sampled_from(['inv-1', 'inv-2']), max_size=1))),
             'meta': draw(metas(3)) if draw(st.integers(0, 2)) == 0 else {},
